@@ -75,7 +75,7 @@ func runC11(c *harness.Ctx) {
 	r := c.Rand("c11")
 	walks := c.Scale(200, 1500)
 	for i := 0; i < walks; i++ {
-		w := NewWalk(r.Fork(uint64(i)), R, WalkOpts{Steps: c.Scale(150, 300), Hostile: 75, OnLeg: onLeg, FlipPayable: i%2 == 1, PadNumbers: i%4 == 3}, "C11")
+		w := NewWalk(r.Fork(uint64(i)), R, WalkOpts{Steps: c.Scale(150, 300), Hostile: 75, OnLeg: onLeg, FlipPayable: i%2 == 1, PadNumbers: i%4 == 3, Reconfigure: i%3 == 2}, "C11")
 		w.U.N.MeasureAlloc = true
 		w.Run()
 		R.Eval(w.U.N.Seq())
@@ -429,6 +429,13 @@ func canonOutput(o *vmcommon.VMOutput, err error) string {
 	return sb.String()
 }
 
+// handedOut: an output a call returned, with its canonical form at that moment.
+type handedOut struct {
+	out   *vmcommon.VMOutput
+	canon string
+	fn    string
+}
+
 type twin struct {
 	u     *gen.Universe
 	first []prefixState
@@ -476,6 +483,7 @@ func runC13(c *harness.Ctx) {
 	for i := 0; i < walks; i++ {
 		var reused, fresh *twin
 		var firstMain []prefixState
+		var handed []*handedOut
 		count := 0
 		onLeg := func(u *gen.Universe, m *Mon, l *node.Leg) {
 			if l.NoFunc || l.Inactive || l.Pre == nil {
@@ -509,8 +517,25 @@ func runC13(c *harness.Ctx) {
 						Arguments: [][]byte{[]byte("UNRELATED-TOKEN-IDENTIFIER-LONGER-THAN-OTHERS"), {1}, {1}, other.Addr, {1}, {1}, {1}}, GasProvided: 1 << 50}, RecipientAddr: other.Addr, Function: l.Call.Func})
 				}()
 			}
-			_, c1 := reused.replay(l, true)
-			_, c2 := fresh.replay(l, false)
+			rl1, c1 := reused.replay(l, true)
+			// the caller owns what it was given back and updates it in place (the VM merges output
+			// accounts into one another); the third execution comes after that
+			node.ScribbleOutput(rl1.Out)
+			rl2, c2 := fresh.replay(l, false)
+			// what earlier calls handed out must not change through later calls on the same objects
+			for _, h := range handed {
+				if now := canonOutput(h.out, nil); now != h.canon {
+					m.viol("C13", "earlier-output-changed:"+l.Call.Func, fmt.Sprintf("the output an earlier call (%s) returned changed while a later call ran on the same function objects:\n %s", h.fn, truncate(diffAt(h.canon, now), 600)), l)
+					h.canon = now
+				}
+			}
+			if rl2.Out != nil && rl2.Err == nil {
+				handed = append(handed, &handedOut{out: rl2.Out, canon: canonOutput(rl2.Out, nil), fn: l.Call.Func})
+				if len(handed) > 4 {
+					handed = handed[1:]
+				}
+				R.Cover("C13/earlier-outputs-rechecked")
+			}
 			if c1 != orig || c2 != orig {
 				which, other := "reused container in another goroutine after an unrelated call", c1
 				if c1 == orig {
